@@ -59,6 +59,7 @@ Theorem c15_unfixed_upper_bound_refuted :
   scan_unfixed 100 200 [0; 100; 200; 300; 400; 500; 600; 700; 800; 900] = [100; 200] /\
   scan 100 200 [0; 100; 200; 300; 400; 500; 600; 700; 800; 900] = [100].
 Proof. exact c15_unfixed_upper_bound_witness. Qed.
+Print Assumptions c15_unfixed_upper_bound_refuted.
 
 (* non-vacuity: a chain with a skipped number, an index that ends before the chain does, a start
    block that is not a match; every hypothesis of the streaming theorems holds for it, the source
